@@ -1,4 +1,5 @@
 import IpaVerif.Proofs.BatcherTrace
+import IpaVerif.Proofs.BatcherWorld
 import IpaVerif.Generated.BatcherConsts
 /-!
 # C16 — a record is released only after its whole batch is validated, with its verdict
@@ -197,6 +198,114 @@ theorem misuse_is_loud {n rpb t0 tps ops} (h : Setting n rpb t0 ops) (r : Nat) :
     have := (inv_getBatchPush hI r x).2.1
     rw [hr] at this
     exact this hc
+
+
+/-! ## The asynchronous tail: futures, the watch channel, the validation closure
+
+`wreach` runs any schedule of batcher calls, single polls of any of the returned futures, the
+environment letting the check of a batch finish (`release`) and futures being dropped. -/
+
+/-- world and history summary after the schedule `ops`; `failing` = batches whose check returns `Err`. -/
+def wreach (rpb : Nat) (t0 : Total) (tps : Nat) (failing : List Nat) (ops : List WOp) : World × Ghost :=
+  wexec (World.new rpb t0 tps failing) {} ops
+
+structure WSetting (n rpb : Nat) (t0 : Total) (ops : List WOp) : Prop where
+  rpb_pos : 0 < rpb
+  t0_ok : t0 = .specified n ∨ t0 = .indeterminate ∨ t0 = .unspecified
+  totals : WTotalsAgree n ops
+
+example : WSetting 3 2 (.specified 3) [.validate 0, .poll 0, .validate 1, .release 0, .poll 1, .poll 0] :=
+  ⟨by decide, Or.inl rfl, by intro t m h; simp at h⟩
+
+theorem wreach_inv {n rpb t0 tps failing ops} (h : WSetting n rpb t0 ops) :
+    WInv n (wreach rpb t0 tps failing ops).1 (wreach rpb t0 tps failing ops).2 :=
+  winv_wexec ops _ _ (winv_new n rpb tps h.rpb_pos t0 h.t0_ok failing) h.totals
+
+theorem wreach_static (rpb t0 tps failing ops) :
+    (wreach rpb t0 tps failing ops).1.failing = failing ∧
+    ∀ s, (wreach rpb t0 tps failing ops).1.batcher = some s → s.rpb = rpb := by
+  obtain ⟨a, b⟩ := wexec_static ops (World.new rpb t0 tps failing) {}
+  refine ⟨a, fun s hs => ?_⟩
+  unfold wreach at hs
+  rw [hs] at b
+  simpa [World.new, State.new] using b
+
+/-- **verdict_matches** (and the asynchronous half of *release after the whole batch*).
+After any schedule: if a poll of a future waiting on batch `b` completes, then every record of `b`
+below the total has asked for validation, the check of `b` has been invoked and allowed to finish,
+and the result is `Ok` exactly when the check succeeded (`ParallelDZKPValidationFailed` otherwise);
+the future that runs the check returns the check's own result. -/
+theorem verdict_matches {n rpb t0 tps failing ops} (h : WSetting n rpb t0 ops) (i : Nat) :
+    let w := (wreach rpb t0 tps failing ops).1
+    let g := (wreach rpb t0 tps failing ops).2
+    (∀ b, w.futs.getD i .gone = .waiter b →
+      ((w.poll i).2 = .ok →
+        (∀ r', r' < n → r' / rpb = b → r' ∈ g.acc) ∧ b ∈ invokedKeys w ∧ b ∈ w.released ∧ b ∉ failing) ∧
+      (∀ e, (w.poll i).2 = .err e → e = .parallelFailed ∧
+        (∀ r', r' < n → r' / rpb = b → r' ∈ g.acc) ∧ b ∈ invokedKeys w ∧ b ∈ w.released ∧ b ∈ failing)) ∧
+    (∀ b st x, w.futs.getD i .gone = .validator b st x →
+      (∀ r', r' < n → r' / rpb = b → r' ∈ g.acc) ∧ st.ctor = b ∧
+      ((w.poll i).2 = .ok → b ∈ w.released ∧ b ∉ failing) ∧
+      (∀ e, (w.poll i).2 = .err e → e = .validationFailed ∧ b ∈ w.released ∧ b ∈ failing)) := by
+  intro w g
+  have hI := wreach_inv (tps := tps) (failing := failing) h
+  obtain ⟨hfail, hrpb⟩ := wreach_static rpb t0 tps failing ops
+  obtain ⟨s, hs, hinv⟩ := hI.batcher
+  have hr := hrpb s hs
+  have hwhole : ∀ b, b ∈ g.closed → ∀ r', r' < n → r' / rpb = b → r' ∈ g.acc := by
+    intro b hb
+    have := (hinv.closed_all b hb).2
+    rw [hr] at this
+    exact (whole_iff_records h.rpb_pos _ b).1 this
+  obtain ⟨hA, hB⟩ := poll_spec hI i
+  rw [hfail] at hA hB
+  constructor
+  · intro b hf
+    obtain ⟨h1, h2⟩ := hA b hf
+    constructor
+    · intro hok
+      obtain ⟨a, b2, c, d⟩ := h1 hok
+      exact ⟨hwhole b a, b2, c, by simpa using d⟩
+    · intro e he
+      obtain ⟨a0, a, b2, c, d⟩ := h2 e he
+      exact ⟨a0, hwhole b a, b2, c, by simpa using d⟩
+  · intro b st x hf
+    obtain ⟨h0, hc, h1, h2⟩ := hB b st x hf
+    refine ⟨hwhole b h0, hc, ?_, ?_⟩
+    · intro hok
+      obtain ⟨c, d⟩ := h1 hok
+      exact ⟨c, by simpa using d⟩
+    · intro e he
+      obtain ⟨a0, c, d⟩ := h2 e he
+      exact ⟨a0, c, by simpa using d⟩
+
+/-- **each batch is checked at most once, and only when complete.**  After any schedule the log of
+invocations of the validation closure has no batch twice; every logged batch had all its records ask
+for validation; the closure received the batch built by constructor call `b`; verdicts are
+broadcast at most once per batch and only for checked, finished batches. -/
+theorem batch_checked_at_most_once {n rpb t0 tps failing ops} (h : WSetting n rpb t0 ops) :
+    let w := (wreach rpb t0 tps failing ops).1
+    let g := (wreach rpb t0 tps failing ops).2
+    (invokedKeys w).Nodup ∧
+    (∀ b, b ∈ invokedKeys w → ∀ r', r' < n → r' / rpb = b → r' ∈ g.acc) ∧
+    (∀ b c p, (b, c, p) ∈ w.invoked → c = b) ∧
+    (verdictKeys w).Nodup ∧
+    (∀ b v, (b, v) ∈ w.verdicts → b ∈ invokedKeys w ∧ b ∈ w.released ∧ (v = true ↔ b ∉ failing)) := by
+  intro w g
+  have hI := wreach_inv (tps := tps) (failing := failing) h
+  obtain ⟨hfail, hrpb⟩ := wreach_static rpb t0 tps failing ops
+  obtain ⟨s, hs, hinv⟩ := hI.batcher
+  have hr := hrpb s hs
+  refine ⟨hI.invoked_nodup, ?_, hI.invoked_ctor, hI.verdict_nodup, ?_⟩
+  · intro b hb
+    have := (hinv.closed_all b (hI.invoked_closed b hb)).2
+    rw [hr] at this
+    exact (whole_iff_records h.rpb_pos _ b).1 this
+  · intro b v hv
+    obtain ⟨a, b2, c⟩ := hI.verdict_ok b v hv
+    rw [hfail] at c
+    refine ⟨a, b2, ?_⟩
+    rw [c]; simp
 
 /-- `records_per_batch = 0` is loud as well: every call panics (division by zero). -/
 theorem zero_batch_size_is_loud (s : State) (h0 : s.rpb = 0) (r n : Nat) (ht : s.total = .specified n) :
